@@ -996,9 +996,9 @@ func azHasStar(ds []string) bool {
 }
 
 // azDeployments: the rules in deployments the other parts do not build.
-//   * behind another proxy (nginx auth_request / forwardAuth): the auth-only constraints are the ones on the URL the FRONT PROXY
+//   - behind another proxy (nginx auth_request / forwardAuth): the auth-only constraints are the ones on the URL the FRONT PROXY
 //     asks (`/oauth2/auth?allowed_groups=…`), whatever query the user's original URI (X-Forwarded-Uri) carries or lacks;
-//   * a session failing the global rules is refused AND its cookie cleared also while the session store refuses deletes
+//   - a session failing the global rules is refused AND its cookie cleared also while the session store refuses deletes
 //     (a read-only Redis replica during fail-over): the deletion of the cookie does not depend on the store's answer.
 func azDeployments(c *suiteCtx) {
 	u := defaultUser() // groups dev, ops; alice@example.com
